@@ -11,6 +11,7 @@ import (
 	"crypto/tls"
 	"crypto/x509"
 	"fmt"
+	"github.com/saucelabs/forwarder"
 	"strings"
 	"testing"
 	"time"
@@ -333,7 +334,17 @@ func dialFault(x *explore.X) {
 		plan[addr] = simnet.Blackhole
 		want = 504
 	}
-	e := setup(x, kind, plan, nil)
+	// client-side read/write time limits shorter than the time the fault takes to surface must not eat the error page
+	limits := x.ChooseFree("client-side-timeouts", 2) == 1
+	var tweak func(*world.Options)
+	if limits {
+		tweak = func(o *world.Options) {
+			o.Tweak = func(cfg *forwarder.HTTPProxyConfig, _ *forwarder.HTTPTransportConfig) {
+				cfg.ReadTimeout, cfg.WriteTimeout = 5*time.Second, 5*time.Second
+			}
+		}
+	}
+	e := setup(x, kind, plan, tweak)
 	if e == nil {
 		return
 	}
@@ -341,7 +352,7 @@ func dialFault(x *explore.X) {
 		return
 	}
 	world.Settle(4 * time.Minute)
-	what := fmt.Sprintf("%s, dial to %s %s", kind, addr, map[int]string{0: "refused", 1: "black-holed"}[fault])
+	what := fmt.Sprintf("%s, dial to %s %s (read/write-timeout 5s: %v)", kind, addr, map[int]string{0: "refused", 1: "black-holed"}[fault], limits)
 	x.Logf("%s; dials %v", what, e.w.Net.Dials())
 	e.expectCleanError(x, what, want, "")
 	probe(x, e.w)
